@@ -1919,6 +1919,15 @@ class Array(DaskMethodsMixin):
         # Use asanyarray to retain e.g. np.ma objects.
         value = asanyarray(value, dtype=self.dtype, like=self)
 
+        if (
+            isinstance(key, np.ndarray)
+            and key.dtype == bool
+            and key.ndim > 1
+            and key.ndim == self.ndim
+        ):
+            # A multi-dimensional NumPy mask is assigned through like a dask one
+            key = asarray(key)
+
         if isinstance(key, Array) and (
             key.dtype.kind in "iu"
             or (key.dtype == bool and key.ndim == 1 and self.ndim > 1)
@@ -1951,6 +1960,10 @@ class Array(DaskMethodsMixin):
                 value = broadcast_to(value, self[key].shape)
 
             y = where(key, value, self)
+            if y.chunks != self.chunks and not np.isnan(self.shape).any():
+                # The mask or the value may be chunked differently; an
+                # assignment must not change the chunks of the array.
+                y = y.rechunk(self.chunks)
             # FIXME does any backend allow mixed ops vs. numpy?
             # If yes, is it wise to let them change the meta?
             self._meta = y._meta
